@@ -6,6 +6,9 @@
   modelled).  2D: see Props of the 2D work package; here 2D is covered by predicates on real runs.
 -/
 import SnowProofs.Lemmas.Snowing
+import SnowProofs.Lemmas.Snowing2DRun
+import SnowProofs.Lemmas.SimpsonPlan
+import SnowProofs.Lemmas.Snowing2D
 
 namespace Snow.C08
 open Snow Num
@@ -479,5 +482,450 @@ theorem nonvacuous :
   have := Real.exp_lt_one_iff.mpr (neg_lt_zero.mpr this)
   simp only [exIn] at this ⊢
   linarith
+
+
+/-! ## 2D model (`SnowModel/Snowing2D.lean`, repaired or current flags alike)
+
+`S2D.coolLoop` is `loopUntil` on the state `S2D.CoolSt` (`Lemmas/Snowing2DLoop.lean`), so the fold
+theorems above transfer; the volume quadrature is `simps(2π·simps(r·J, r), z)`. -/
+
+open Snow.S2D in
+/-- **2D, stochastic nucleation**: the cooling stage ends at step `i` iff `F_nuc > F_rand` at step
+`i` and at no earlier step. -/
+theorem nuc_first_crossing_2D (p : Par ℝ) (f : Flags) (T0C : ℝ) (prof : List ℝ) (NtExp : ℕ) (Frand : ℝ)
+    (i : ℕ) :
+    (cool2D p f T0C prof NtExp Frand none).1 = some i ↔
+      i < prof.length ∧ Frand < Fnuc (st2D p f T0C prof NtExp i).E ∧
+        ∀ j, j < i → Fnuc (st2D p f T0C prof NtExp j).E ≤ Frand := by
+  unfold cool2D
+  rw [loopUntil_fst_some_iff]
+  simp only [coolStopSt, st2D, Fnuc, shelfK, List.length_map, Transc.exp, one_real, decide_eq_true_eq,
+    decide_eq_false_iff_not, not_lt]
+
+open Snow.S2D in
+/-- the run raises "Nucleation did not occur" iff the hazard never crosses -/
+theorem no_crossing_raises_2D (p : Par ℝ) (f : Flags) (T0C : ℝ) (prof : List ℝ) (NtExp : ℕ) (Frand : ℝ) :
+    (cool2D p f T0C prof NtExp Frand none).1 = none ↔
+      ∀ j, j < prof.length → Fnuc (st2D p f T0C prof NtExp j).E ≤ Frand := by
+  unfold cool2D
+  rw [loopUntil_none_iff]
+  simp only [coolStopSt, st2D, Fnuc, shelfK, List.length_map, Transc.exp, one_real,
+    decide_eq_false_iff_not, not_lt, stateAt_eq_prefState]
+
+open Snow.S2D in
+/-- a completed 2D run left the cooling loop at `r.iCool`, with the loop state of that step -/
+theorem run2D_cool (p : Par ℝ) (f : Flags) (T0C : ℝ) (prof : List ℝ) (NtExp : ℕ) (Frand : ℝ)
+    (cn : Option ℝ) (r : Result ℝ) (h : run p f T0C prof NtExp Frand cn = .ok r) :
+    (cool2D p f T0C prof NtExp Frand cn).1 = some r.iCool ∧
+      (cool2D p f T0C prof NtExp Frand cn).2 = st2D p f T0C prof NtExp r.iCool ∧
+      (st2D p f T0C prof NtExp r.iCool).rows.size < 10000 ∧
+      ∃ iS, (solFin2D (mkCtx p f) NtExp prof r.iCool (st2D p f T0C prof NtExp r.iCool)).iSol = some iS ∧
+        r = mkResult (mkCtx p f) NtExp r.iCool (st2D p f T0C prof NtExp r.iCool)
+          (solFin2D (mkCtx p f) NtExp prof r.iCool (st2D p f T0C prof NtExp r.iCool)) iS := by
+  rw [run_eq] at h
+  rcases hc : cool2D p f T0C prof NtExp Frand cn with ⟨_ | iEnd, s⟩
+  · rw [hc] at h; cases h
+  · rw [hc] at h
+    have hs : s = st2D p f T0C prof NtExp iEnd := by
+      unfold cool2D at hc
+      exact loopUntil_snd_of_some _ _ _ _ _ _ hc
+    simp only at h
+    by_cases hfull : s.rows.size ≥ 10000
+    · simp only [hfull, if_true] at h; cases h
+    · simp only [hfull, if_false] at h
+      rcases hsol : (solFin2D (mkCtx p f) NtExp prof iEnd s).iSol with _ | iS
+      · rw [hsol] at h; cases h
+      · rw [hsol] at h
+        simp only [Except.ok.injEq] at h
+        have hi : r.iCool = iEnd := by rw [← h]; rfl
+        rw [hi]
+        refine ⟨rfl, hs, by rw [← hs]; omega, iS, by rw [← hs]; exact hsol, by rw [← hs]; exact h.symm⟩
+
+open Snow.S2D in
+/-- **2D**: `E_i = Σ_{j ≤ i} K_v,j·dt` -/
+theorem E_is_riemann_sum_2D (p : Par ℝ) (f : Flags) (T0C : ℝ) (prof : List ℝ) (NtExp : ℕ) (i : ℕ)
+    (hi : i < prof.length) :
+    (st2D p f T0C prof NtExp i).E =
+      ∑ j ∈ Finset.range (i + 1), (st2D p f T0C prof NtExp j).Kv * (mkCtx p f).dt := by
+  have := accum_eq_sum (coolStep2D p f NtExp) (fun s => s.E) (fun s => s.Kv * (mkCtx p f).dt)
+    (fun i s x => rfl) (shelfK prof) (coolInit2D (mkCtx p f) T0C) i (by simpa [shelfK] using hi)
+  simpa [st2D, coolInit2D] using this
+
+open Snow.S2D in
+/-- the volume quadrature of the 2D model in terms of SciPy's `simpson`:
+`simps(2π·simps(r·F, r), z)` on `z = linspace(0, height, Nz)`, `r = linspace(0, radius, Nr)` -/
+theorem volIntegral_eq (p : Par ℝ) (f : Flags) (F : Array ℝ) :
+    volIntegral (mkCtx p f) F =
+      simpson (samples (fun i => 2 * p.pi *
+          simpson (samples (fun j => nth (rs p) j * rd p.Nr F i j) p.Nr) (rs p)) p.Nz) (zs p) := by
+  unfold volIntegral
+  simp only [mkCtx]
+  rw [plan_eval_eq_simpson]
+  have hz : (zs p).toArray.size = p.Nz := by simp [zs, length_linspace0]
+  have hr : (rs p).toArray.size = p.Nr := by simp [rs, length_linspace0]
+  rw [hz]
+  congr 1
+  unfold samples
+  apply List.map_congr_left
+  intro i hi
+  have hi' : i < p.Nz := by simpa using hi
+  rw [rd1_ofFn _ i hi']
+  simp only [two, ofNat'_real, Nat.cast_ofNat]
+  rw [plan_eval_eq_simpson, hr]
+  congr 2
+  unfold samples
+  apply List.map_congr_left
+  intro j _
+  simp only [rd1, nth, List.getD_eq_getElem?_getD, Array.getD_eq_getD_getElem?, List.getElem?_toArray]
+
+open Snow.S2D in
+/-- **2D**: `K_v` of every step is the stated quadrature of the stated rate over the supercooled
+mask of that step's field -/
+theorem Kv_is_quadrature_2D (p : Par ℝ) (f : Flags) (T0C : ℝ) (prof : List ℝ) (NtExp : ℕ) (j : ℕ)
+    (hj : j < prof.length) :
+    (st2D p f T0C prof NtExp j).J = (st2D p f T0C prof NtExp j).T.map
+        (fun t => if t < TeqL p then p.kb * (TeqL p - t) ^ p.b else 0) ∧
+      (st2D p f T0C prof NtExp j).Kv =
+        simpson (samples (fun i => 2 * p.pi *
+          simpson (samples (fun k => nth (rs p) k * rd p.Nr (st2D p f T0C prof NtExp j).J i k) p.Nr) (rs p))
+          p.Nz) (zs p) := by
+  have h := stateAt_post (coolStep2D p f NtExp)
+    (fun s => s.J = hazardJ (mkCtx p f) s.T ∧ s.Kv = volIntegral (mkCtx p f) s.J)
+    (shelfK prof) (coolInit2D (mkCtx p f) T0C) (fun _ _ _ => ⟨rfl, rfl⟩) j (by simpa [shelfK] using hj)
+  refine ⟨?_, ?_⟩
+  · rw [show (st2D p f T0C prof NtExp j).J = _ from h.1]
+    simp only [hazardJ, mkCtx, Transc.pow, zero_real]
+    rfl
+  · rw [show (st2D p f T0C prof NtExp j).Kv = _ from h.2, volIntegral_eq]
+    rfl
+
+open Snow.S2D in
+/-- **2D**: the reported statistics are those of the field of the break step (the state the stop
+test was evaluated on); `t_nuc = dt·i` -/
+theorem stats_at_nucleation_instant_2D (p : Par ℝ) (f : Flags) (T0C : ℝ) (prof : List ℝ) (NtExp : ℕ)
+    (Frand : ℝ) (cn : Option ℝ) (r : Result ℝ) (h : run p f T0C prof NtExp Frand cn = .ok r) :
+    r.TnucMin = S2D.minA (st2D p f T0C prof NtExp r.iCool).T - 273.15 ∧
+    r.TnucKin = TnucKin2D (mkCtx p f) (st2D p f T0C prof NtExp r.iCool) - 273.15 ∧
+    r.TnucMean = S2D.meanA (st2D p f T0C prof NtExp r.iCool).T - 273.15 ∧
+    r.TnucMax = S2D.maxA (st2D p f T0C prof NtExp r.iCool).T - 273.15 ∧
+    r.tNuc = (mkCtx p f).dt * (r.iCool : ℝ) / 60 := by
+  obtain ⟨_, _, _, iS, _, hr⟩ := run2D_cool p f T0C prof NtExp Frand cn r h
+  have hk : (kelvin : ℝ) = 273.15 := by simp only [kelvin, lit_real]; norm_num
+  rw [hr]
+  simp only [mkResult, hk, ofNat'_real, Nat.cast_ofNat, and_self]
+
+
+/-! ### 2D: monotone hazard, order of the reported temperatures -/
+
+/-- geometric well-formedness of the 2D quadrature: both grids have ≥ 3 points and positive
+extent; `p.pi` (the double `np.pi`, an input of the model) and `kb` are non-negative -/
+structure WFGrid2D (p : S2D.Par ℝ) : Prop where
+  Nz_ge : 3 ≤ p.Nz
+  Nr_ge : 3 ≤ p.Nr
+  height_pos : 0 < p.height
+  radius_pos : 0 < S2D.radius p
+  pi_nonneg : 0 ≤ p.pi
+  kb_nonneg : 0 ≤ p.kb
+
+open Snow.S2D in
+theorem rs_uniform (p : Par ℝ) (h : WFGrid2D p) :
+    Uniform (rs p) (radius p / ((p.Nr - 1 : ℕ) : ℝ)) ∧ 0 < radius p / ((p.Nr - 1 : ℕ) : ℝ) ∧
+      (rs p).length = p.Nr := by
+  have hN := h.Nr_ge
+  have : (0 : ℝ) < ((p.Nr - 1 : ℕ) : ℝ) := by
+    have : 0 < p.Nr - 1 := by omega
+    exact_mod_cast this
+  exact ⟨uniform_linspace0 _ _ (by omega), div_pos h.radius_pos this, by simp [rs, length_linspace0]⟩
+
+open Snow.S2D in
+theorem zs_uniform (p : Par ℝ) (h : WFGrid2D p) :
+    Uniform (zs p) (p.height / ((p.Nz - 1 : ℕ) : ℝ)) ∧ 0 < p.height / ((p.Nz - 1 : ℕ) : ℝ) ∧
+      (zs p).length = p.Nz := by
+  have hN := h.Nz_ge
+  have : (0 : ℝ) < ((p.Nz - 1 : ℕ) : ℝ) := by
+    have : 0 < p.Nz - 1 := by omega
+    exact_mod_cast this
+  exact ⟨uniform_linspace0 _ _ (by omega), div_pos h.height_pos this, by simp [zs, length_linspace0]⟩
+
+open Snow.S2D in
+theorem rs_nonneg (p : Par ℝ) (h : WFGrid2D p) (j : ℕ) (hj : j < p.Nr) : 0 ≤ nth (rs p) j := by
+  have hN := h.Nr_ge
+  unfold rs
+  rw [nth_linspace0 _ _ (by omega) j hj]
+  exact mul_nonneg (Nat.cast_nonneg _) (le_of_lt (rs_uniform p h).2.1)
+
+/-- sandwich for the Simpson rule on a uniform grid (non-negative weights) -/
+theorem simpson_sandwich (w g : ℕ → ℝ) (N : ℕ) (x : List ℝ) (h lo hi : ℝ) (hh : 0 < h) (hu : Uniform x h)
+    (hx : x.length = N) (hN : 3 ≤ N) (H : ∀ j, j < N → lo * w j ≤ g j ∧ g j ≤ hi * w j) :
+    lo * simpson (S2D.samples w N) x ≤ simpson (S2D.samples g N) x ∧
+      simpson (S2D.samples g N) x ≤ hi * simpson (S2D.samples w N) x := by
+  have e1 := simpson_uniform_weights (S2D.samples w N) x h (ne_of_gt hh) hu (by simp [hx]) (by simp; omega)
+  have e2 := simpson_uniform_weights (S2D.samples g N) x h (ne_of_gt hh) hu (by simp [hx]) (by simp; omega)
+  simp only [S2D.length_samples] at e1 e2
+  rw [e1, e2, Finset.mul_sum, Finset.mul_sum]
+  constructor
+  · apply Finset.sum_le_sum
+    intro j hj
+    have hj' : j < N := by simpa using hj
+    rw [S2D.nth_samples w N j hj', S2D.nth_samples g N j hj']
+    have := mul_le_mul_of_nonneg_left (H j hj').1 (simpsonW_nonneg N h (le_of_lt hh) j)
+    linarith [this]
+  · apply Finset.sum_le_sum
+    intro j hj
+    have hj' : j < N := by simpa using hj
+    rw [S2D.nth_samples w N j hj', S2D.nth_samples g N j hj']
+    have := mul_le_mul_of_nonneg_left (H j hj').2 (simpsonW_nonneg N h (le_of_lt hh) j)
+    linarith [this]
+
+/-- non-negativity as a special case -/
+theorem simpson_samples_nonneg (g : ℕ → ℝ) (N : ℕ) (x : List ℝ) (h : ℝ) (hh : 0 < h) (hu : Uniform x h)
+    (hx : x.length = N) (hN : 3 ≤ N) (H : ∀ j, j < N → 0 ≤ g j) : 0 ≤ simpson (S2D.samples g N) x := by
+  have := (simpson_sandwich g g N x h 0 1 hh hu hx hN (by intro j hj; simp [H j hj])).1
+  simpa using this
+
+open Snow.S2D in
+/-- the rate field read at a node: the rate law of the node's temperature (0 outside the array) -/
+theorem rd_hazardJ (p : Par ℝ) (f : Flags) (T : Array ℝ) (i j : ℕ) :
+    rd p.Nr (hazardJ (mkCtx p f) T) i j =
+      if h : i * p.Nr + j < T.size then
+        (if T[i * p.Nr + j] < TeqL p then p.kb * (TeqL p - T[i * p.Nr + j]) ^ p.b else 0)
+      else 0 := by
+  unfold rd hazardJ
+  by_cases h : i * p.Nr + j < T.size
+  · simp [Array.getD, h, mkCtx, Transc.pow]
+  · simp [Array.getD, h]
+
+open Snow.S2D in
+theorem rd_hazardJ_nonneg (p : Par ℝ) (f : Flags) (hw : WFGrid2D p) (T : Array ℝ) (i j : ℕ) :
+    0 ≤ rd p.Nr (hazardJ (mkCtx p f) T) i j := by
+  rw [rd_hazardJ]
+  split_ifs with h1 h2
+  · exact mul_nonneg hw.kb_nonneg (Real.rpow_nonneg (by linarith) _)
+  · exact le_refl _
+  · exact le_refl _
+
+open Snow.S2D in
+/-- the 2D nucleation frequency is non-negative (weights `w_z·2π·r_j·w_r ≥ 0`) -/
+theorem Kv_nonneg_2D (p : Par ℝ) (f : Flags) (hw : WFGrid2D p) (T : Array ℝ) :
+    0 ≤ volIntegral (mkCtx p f) (hazardJ (mkCtx p f) T) := by
+  rw [volIntegral_eq]
+  obtain ⟨hzu, hzp, hzl⟩ := zs_uniform p hw
+  obtain ⟨hru, hrp, hrl⟩ := rs_uniform p hw
+  apply simpson_samples_nonneg _ _ _ _ hzp hzu hzl hw.Nz_ge
+  intro i _
+  apply mul_nonneg (mul_nonneg (by norm_num) hw.pi_nonneg)
+  apply simpson_samples_nonneg _ _ _ _ hrp hru hrl hw.Nr_ge
+  intro j hj
+  exact mul_nonneg (rs_nonneg p hw j hj) (rd_hazardJ_nonneg p f hw T i j)
+
+open Snow.S2D in
+/-- **2D**: `E` never decreases -/
+theorem E_mono_2D (p : Par ℝ) (f : Flags) (hw : WFGrid2D p) (hdt : 0 ≤ (mkCtx p f).dt) (T0C : ℝ)
+    (prof : List ℝ) (NtExp : ℕ) (i : ℕ) (hi : i + 1 < prof.length) :
+    (st2D p f T0C prof NtExp i).E ≤ (st2D p f T0C prof NtExp (i + 1)).E := by
+  have hi' : i + 1 < (shelfK prof).length := by simpa [shelfK] using hi
+  have hs : st2D p f T0C prof NtExp (i + 1) =
+      coolStep2D p f NtExp (i + 1) (st2D p f T0C prof NtExp i) (shelfK prof)[i + 1] := by
+    unfold st2D; rw [stateAt_succ _ _ _ _ hi']
+  have hE : (st2D p f T0C prof NtExp (i + 1)).E =
+      (st2D p f T0C prof NtExp i).E + (st2D p f T0C prof NtExp (i + 1)).Kv * (mkCtx p f).dt := by
+    rw [hs]; rfl
+  have hK : 0 ≤ (st2D p f T0C prof NtExp (i + 1)).Kv := by
+    rw [hs]; exact Kv_nonneg_2D p f hw _
+  rw [hE]
+  have := mul_nonneg hK hdt
+  linarith
+
+/-- the 2D model's `minA/maxA/meanA` are those of the 1D model -/
+theorem minA_2D (A : Array ℝ) : S2D.minA A = Snow.minA A := rfl
+theorem maxA_2D (A : Array ℝ) : S2D.maxA A = Snow.maxA A := rfl
+theorem meanA_2D (A : Array ℝ) : S2D.meanA A = Snow.meanA A := by
+  unfold S2D.meanA S2D.sumA Snow.meanA sumList
+  rw [← Array.foldl_toList]
+
+open Snow.S2D in
+/-- **2D**: `min ≤ mean ≤ max` of the reported nucleation temperatures -/
+theorem Tnuc_stats_order_2D (p : Par ℝ) (f : Flags) (T0C : ℝ) (prof : List ℝ) (NtExp : ℕ) (Frand : ℝ)
+    (cn : Option ℝ) (r : Result ℝ) (h : run p f T0C prof NtExp Frand cn = .ok r)
+    (hsz : 0 < (st2D p f T0C prof NtExp r.iCool).T.size) :
+    r.TnucMin ≤ r.TnucMean ∧ r.TnucMean ≤ r.TnucMax := by
+  obtain ⟨h1, _, h3, h4, _⟩ := stats_at_nucleation_instant_2D p f T0C prof NtExp Frand cn r h
+  rw [h1, h3, h4, minA_2D, maxA_2D, meanA_2D]
+  have := minA_le_meanA _ hsz
+  have := meanA_le_maxA _ hsz
+  constructor <;> linarith
+
+
+/-! ### 2D: the kinetic mean nucleation temperature -/
+
+open Snow.S2D in
+/-- the numerator of the kinetic mean, `simps(2π·simps(r·T·J, r), z)`, in terms of `simpson` -/
+theorem kinInt_eq (p : Par ℝ) (f : Flags) (s : CoolSt ℝ) (hpos : 0 < s.Kv) :
+    TnucKin2D (mkCtx p f) s = (1 / s.Kv) *
+      simpson (samples (fun i => 2 * p.pi *
+        simpson (samples (fun j => (nth (rs p) j * rd p.Nr s.T i j) * rd p.Nr s.J i j) p.Nr) (rs p)) p.Nz)
+        (zs p) := by
+  unfold TnucKin2D
+  simp only [zero_real, hpos, if_true, one_real, mkCtx]
+  rw [plan_eval_eq_simpson]
+  have hz : (zs p).toArray.size = p.Nz := by simp [zs, length_linspace0]
+  have hr : (rs p).toArray.size = p.Nr := by simp [rs, length_linspace0]
+  rw [hz]
+  congr 2
+  unfold samples
+  apply List.map_congr_left
+  intro i hi
+  have hi' : i < p.Nz := by simpa using hi
+  rw [rd1_ofFn _ i hi']
+  simp only [two, ofNat'_real, Nat.cast_ofNat]
+  rw [plan_eval_eq_simpson, hr]
+  congr 2
+  unfold samples
+  apply List.map_congr_left
+  intro j _
+  simp only [rd1, nth, List.getD_eq_getElem?_getD, Array.getD_eq_getD_getElem?, List.getElem?_toArray]
+
+open Snow.S2D in
+/-- **2D**: `min ≤ T_kin ≤ T_eq_l` when `K_v > 0` – a weighted mean with the non-negative weights
+`w_z·2π·r·w_r·J`, supported on the supercooled nodes -/
+theorem Tnuc_kin_bounds_2D (p : Par ℝ) (f : Flags) (hw : WFGrid2D p) (s : CoolSt ℝ)
+    (hT : s.T.size = p.Nz * p.Nr) (hJ : s.J = hazardJ (mkCtx p f) s.T)
+    (hK : s.Kv = volIntegral (mkCtx p f) s.J) (hpos : 0 < s.Kv) :
+    S2D.minA s.T ≤ TnucKin2D (mkCtx p f) s ∧ TnucKin2D (mkCtx p f) s ≤ TeqL p := by
+  obtain ⟨hzu, hzp, hzl⟩ := zs_uniform p hw
+  obtain ⟨hru, hrp, hrl⟩ := rs_uniform p hw
+  rw [kinInt_eq p f s hpos]
+  have hKv : s.Kv = simpson (samples (fun i => 2 * p.pi *
+      simpson (samples (fun j => nth (rs p) j * rd p.Nr s.J i j) p.Nr) (rs p)) p.Nz) (zs p) := by
+    rw [hK, volIntegral_eq]
+  set m := S2D.minA s.T with hm
+  have h2pi : 0 ≤ 2 * p.pi := mul_nonneg (by norm_num) hw.pi_nonneg
+  -- node-wise sandwich
+  have node : ∀ i j, i < p.Nz → j < p.Nr →
+      m * (nth (rs p) j * rd p.Nr s.J i j) ≤ (nth (rs p) j * rd p.Nr s.T i j) * rd p.Nr s.J i j ∧
+      (nth (rs p) j * rd p.Nr s.T i j) * rd p.Nr s.J i j ≤ TeqL p * (nth (rs p) j * rd p.Nr s.J i j) := by
+    intro i j hi hj
+    have hidx : i * p.Nr + j < s.T.size := by rw [hT]; exact idx_lt hi hj
+    have hr0 := rs_nonneg p hw j hj
+    have hTij : rd p.Nr s.T i j = s.T[i * p.Nr + j] := by simp [rd, Array.getD, hidx]
+    have hmin : m ≤ rd p.Nr s.T i j := by
+      rw [hTij, hm, minA_2D, ← aget_lt s.T _ hidx]
+      exact minA_le s.T _ hidx
+    have hJij := rd_hazardJ p f s.T i j
+    rw [← hJ] at hJij
+    rw [dif_pos hidx] at hJij
+    have hJnn : 0 ≤ rd p.Nr s.J i j := by rw [hJ]; exact rd_hazardJ_nonneg p f hw s.T i j
+    constructor
+    · have := mul_le_mul_of_nonneg_right hmin (mul_nonneg hr0 hJnn)
+      nlinarith [this]
+    · by_cases hlt : s.T[i * p.Nr + j] < TeqL p
+      · have h1 : rd p.Nr s.T i j ≤ TeqL p := by rw [hTij]; exact le_of_lt hlt
+        have := mul_le_mul_of_nonneg_right h1 (mul_nonneg hr0 hJnn)
+        nlinarith [this]
+      · rw [hJij, if_neg hlt]; simp
+  -- rows
+  have row : ∀ i, i < p.Nz →
+      m * (2 * p.pi * simpson (samples (fun j => nth (rs p) j * rd p.Nr s.J i j) p.Nr) (rs p)) ≤
+        2 * p.pi * simpson (samples (fun j => (nth (rs p) j * rd p.Nr s.T i j) * rd p.Nr s.J i j) p.Nr) (rs p) ∧
+      2 * p.pi * simpson (samples (fun j => (nth (rs p) j * rd p.Nr s.T i j) * rd p.Nr s.J i j) p.Nr) (rs p) ≤
+        TeqL p * (2 * p.pi * simpson (samples (fun j => nth (rs p) j * rd p.Nr s.J i j) p.Nr) (rs p)) := by
+    intro i hi
+    have := simpson_sandwich (fun j => nth (rs p) j * rd p.Nr s.J i j)
+      (fun j => (nth (rs p) j * rd p.Nr s.T i j) * rd p.Nr s.J i j) p.Nr (rs p) _ m (TeqL p) hrp hru hrl
+      hw.Nr_ge (fun j hj => node i j hi hj)
+    constructor
+    · have := mul_le_mul_of_nonneg_left this.1 h2pi; nlinarith [this]
+    · have := mul_le_mul_of_nonneg_left this.2 h2pi; nlinarith [this]
+  have tot := simpson_sandwich
+    (fun i => 2 * p.pi * simpson (samples (fun j => nth (rs p) j * rd p.Nr s.J i j) p.Nr) (rs p))
+    (fun i => 2 * p.pi * simpson (samples (fun j => (nth (rs p) j * rd p.Nr s.T i j) * rd p.Nr s.J i j) p.Nr) (rs p))
+    p.Nz (zs p) _ m (TeqL p) hzp hzu hzl hw.Nz_ge row
+  rw [← hKv] at tot
+  constructor
+  · rw [one_div, ← div_eq_inv_mul, le_div_iff₀ hpos]; exact tot.1
+  · rw [one_div, ← div_eq_inv_mul, div_le_iff₀ hpos]; exact tot.2
+
+open Snow.S2D in
+/-- the explicit else-branch: when `K_v ≤ 0` the code reports 273.15 K -/
+theorem Tnuc_kin_else_2D (c : Ctx ℝ) (s : CoolSt ℝ) (hK : ¬ 0 < s.Kv) : TnucKin2D c s = 273.15 := by
+  unfold TnucKin2D
+  simp only [zero_real, hK, if_false, kelvin, lit_real]
+  norm_num
+
+/-! ### 2D: the field keeps its size `Nz·Nr` (both the repaired and the in-place sweep) -/
+
+theorem size_foldl_set (Nr : ℕ) (l : List ((ℕ × ℕ) × ℝ)) (A : Array ℝ) :
+    (l.foldl (fun A' e => A'.setIfInBounds (e.1.1 * Nr + e.1.2) e.2) A).size = A.size := by
+  induction l generalizing A with
+  | nil => rfl
+  | cons e l ih => simp only [List.foldl_cons]; rw [ih]; simp
+
+open Snow.S2D in
+theorem size_writeRegion (Nr : ℕ) (node : (ℕ → ℕ → ℝ) → ℕ → ℕ → ℝ) (A : Array ℝ) (reg : List (ℕ × ℕ)) :
+    (writeRegion Nr node A reg).size = A.size := by
+  unfold writeRegion
+  exact size_foldl_set Nr _ A
+
+open Snow.S2D in
+theorem size_sweep (Nz Nr : ℕ) (inplace : Bool) (node : (ℕ → ℕ → ℝ) → ℕ → ℕ → ℝ) (T : Array ℝ)
+    (hT : T.size = Nz * Nr) : (sweep Nz Nr inplace node T).size = Nz * Nr := by
+  unfold sweep
+  cases inplace
+  · simp
+  · simp only [if_true]
+    generalize regions Nz Nr = regs
+    induction regs generalizing T with
+    | nil => simpa using hT
+    | cons r rs ih => simp only [List.foldl_cons]; exact ih _ (by rw [size_writeRegion]; exact hT)
+
+open Snow.S2D in
+theorem st2D_size (p : Par ℝ) (f : Flags) (T0C : ℝ) (prof : List ℝ) (NtExp : ℕ) (j : ℕ) :
+    (st2D p f T0C prof NtExp j).T.size = p.Nz * p.Nr := by
+  unfold st2D
+  refine stateAt_invariant _ (fun s : CoolSt ℝ => s.T.size = p.Nz * p.Nr) _ _ ?_ ?_ j
+  · simp [coolInit2D, mkCtx]
+  · intro i s x hs
+    simp only [coolStep2D, coolStepSt, coolStep]
+    exact size_sweep _ _ _ _ _ (by simpa [mkCtx] using hs)
+
+open Snow.S2D in
+/-- **2D, on the run's result**: `min ≤ mean ≤ max`; `min ≤ kin ≤ T_eq_l` (°C) when the nucleation
+frequency at the break step is positive, else `kin = 0 °C` -/
+theorem Tnuc_order_of_run_2D (p : Par ℝ) (f : Flags) (hw : WFGrid2D p) (T0C : ℝ) (prof : List ℝ)
+    (NtExp : ℕ) (Frand : ℝ) (cn : Option ℝ) (r : Result ℝ) (h : run p f T0C prof NtExp Frand cn = .ok r) :
+    r.TnucMin ≤ r.TnucMean ∧ r.TnucMean ≤ r.TnucMax ∧
+      (0 < (st2D p f T0C prof NtExp r.iCool).Kv →
+        r.TnucMin ≤ r.TnucKin ∧ r.TnucKin ≤ TeqL p - 273.15) ∧
+      (¬ 0 < (st2D p f T0C prof NtExp r.iCool).Kv → r.TnucKin = 0) := by
+  have hsz := st2D_size p f T0C prof NtExp r.iCool
+  have hN : 0 < p.Nz * p.Nr := Nat.mul_pos (by have := hw.Nz_ge; omega) (by have := hw.Nr_ge; omega)
+  obtain ⟨ho1, ho2⟩ := Tnuc_stats_order_2D p f T0C prof NtExp Frand cn r h (by rw [hsz]; exact hN)
+  obtain ⟨h1, h2, _, _, _⟩ := stats_at_nucleation_instant_2D p f T0C prof NtExp Frand cn r h
+  obtain ⟨hc, _, _, _⟩ := run2D_cool p f T0C prof NtExp Frand cn r h
+  have hi : r.iCool < (shelfK prof).length := by
+    unfold cool2D at hc
+    rw [loopUntil_fst_some_iff] at hc; exact hc.1
+  have hpost := stateAt_post (coolStep2D p f NtExp)
+    (fun s => s.J = hazardJ (mkCtx p f) s.T ∧ s.Kv = volIntegral (mkCtx p f) s.J)
+    (shelfK prof) (coolInit2D (mkCtx p f) T0C) (fun _ _ _ => ⟨rfl, rfl⟩) r.iCool hi
+  refine ⟨ho1, ho2, ?_, ?_⟩
+  · intro hpos
+    have := Tnuc_kin_bounds_2D p f hw (st2D p f T0C prof NtExp r.iCool) hsz hpost.1 hpost.2 hpos
+    rw [h1, h2]
+    constructor <;> linarith [this.1, this.2]
+  · intro hneg
+    rw [h2, Tnuc_kin_else_2D _ _ hneg]; norm_num
+
+/-- the 2D hypotheses are satisfiable: a well-formed grid (the code's 30 × 15 on a 5 cm vial) -/
+theorem nonvacuous_2D : ∃ p : S2D.Par ℝ, WFGrid2D p ∧ 2 ≤ p.Nz ∧ 2 ≤ p.Nr := by
+  refine ⟨{ pi := 3, height := 1 / 20, diameter := 1 / 20, V := 1, rho_l := 1, mass := 1, mass_water := 1,
+            mass_solute := 0, lambda_w := 1, lambda_i := 1, lambda_s := 1, cp_w := 1, cp_i := 1, cp_s := 1,
+            cp_solution := 1, solid_fraction := 0, T_eq := 0, k_f := 1, M_s := 1, depression := 0, kb := 1,
+            b := 2, k_B := 1, Dh := 1, K_shelf := 1, config := .shelf, p_vac := 0, kappa := 0, dHe := 0,
+            m_water := 0, t_vac_start := 0, t_vac_duration := 0, air_gap := 0, lambda_air := 1 }, ?_, ?_, ?_⟩
+  · refine ⟨by norm_num, by norm_num, by norm_num, ?_, by norm_num, by norm_num⟩
+    simp only [S2D.radius, S2D.two, ofNat'_real]; norm_num
+  · norm_num
+  · norm_num
 
 end Snow.C08
